@@ -80,6 +80,8 @@ def structures(tier):
         for nd in (0, 1, 2):
             for thd in (False, True):
                 sts.append({'name': 'PERF_Event', 'sc': 'sampler', 'hdr': hdr, 'nd': nd, 'thd': thd})
+    for k in range(4 if tier == 'quick' else 12):
+        sts.append({'name': 'BSC_getpid', 'sc': 'long', 'n': 40000 + 1013 * k, 'seed': k})
     return sts
 
 
@@ -222,7 +224,46 @@ def _safe(e):
     return '<message mentions a symbolic value>' if has_atoms(t) else t[:120]
 
 
+def run_long(ctx, st):
+    """a long concrete (seeded) history with operations that stay open for tens of thousands of records: the stream is
+    processed to the end (per-thread backlogs, caches and their overflow handling)"""
+    import random
+    from pykdebugparser.kevent import Kevent
+    _, by_name = sweep.codes()
+    rng = random.Random(99 + st['seed'])
+    names = ['BSC_getpid', 'BSC_getppid', 'BSC_read', 'BSC_sync', 'proc_exit', 'TRACE_DATA_EXEC', 'MACH_SCHED']
+    tids = [0x101, 0x202]
+    p = _parser(ctx)
+    n = st['n']
+    sym_at = n // 3
+    try:
+        for i in range(n):
+            nm = rng.choice(names)
+            q = rng.choice([1, 1, 2, 0, 3])
+            tid = tids[0] if rng.random() < 0.7 else tids[1]
+            if i == 0:
+                nm, q, tid = 'BSC_getppid', 1, tids[0]           # never ended
+            if i == sym_at:
+                ev = _mk(ctx, 'x', 'BSC_read', 1, i)
+                ev = ev._replace(tid=tid)
+            else:
+                eid = by_name[nm]
+                w = (i & 0xff, 2, 3, 4)
+                ev = Kevent(i, b''.join(x.to_bytes(8, 'little') for x in w), w, tid, eid | q, eid, q)
+            t = p.feed(ev)
+            if t is not None:
+                str(t)
+    except OutOfDomain:
+        ctx.reach('ood'); ctx.reach(); return
+    except Exception as e:      # noqa
+        ctx.check('C07/long-history', False, 'event %d: %s: %s' % (i, type(e).__name__, _safe(e))); ctx.reach(); return
+    ctx.check('C07/long-history', True)
+    ctx.reach()
+
+
 def run(ctx, st):
+    if st['sc'] == 'long':
+        return run_long(ctx, st)
     evs, _ = scenario_events(ctx, st)
     p = _parser(ctx)
     L = label_of(st)
